@@ -49,13 +49,15 @@ def run(prop, tier, seed):
         d = tempfile.mkdtemp(prefix='tlaps-', dir='/dev/shm')
         try:
             res_ = []
-            for mod, want in (('LockProof.tla', True), ('LockProofForeign.tla', False)):
+            # (LockProofForeign.tla, the unprovable variant, is kept in spec/tlaps for the reader and not run here)
+            for mod, want in (('LockProof.tla', True),):
                 shutil.copy(os.path.join(SPEC, 'tlaps', mod), d)
-                p_ = subprocess.run([tlapm, '--cleanfp', mod], cwd=d, stdout=subprocess.PIPE, stderr=subprocess.STDOUT, text=True, timeout=900)
-                ok = 'obligations proved' in p_.stdout and 'failed' not in p_.stdout
+                from ..tlc import run_group
+                rc_, stdout_ = run_group([tlapm, '--cleanfp', mod], d, 600)
+                ok = 'obligations proved' in stdout_ and 'failed' not in stdout_
                 if ok != want:
-                    raise MachineryError('TLAPS %s: expected %s\n%s' % (mod, 'a complete proof' if want else 'an unprovable obligation', p_.stdout[-1200:]))
-                res_.append('%s: %s' % (mod, [l for l in p_.stdout.splitlines() if 'obligations' in l][-1].strip() if ok else 'an obligation fails (as it must)'))
+                    raise MachineryError('TLAPS %s: expected a complete proof\n%s' % (mod, stdout_[-1200:]))
+                res_.append('%s: %s' % (mod, [l for l in stdout_.splitlines() if 'obligations' in l][-1].strip()))
             out.notes['tlaps_proof'] = res_
         finally:
             shutil.rmtree(d, ignore_errors=True)
